@@ -28,20 +28,41 @@ type envFlow struct {
 	entry map[ssa.Value]bool // loads of the env cell that see the value the function was entered with
 }
 
-func (f *envFlow) Entry() string        { return envOrig }
+// The state is "<current>;<pending>": what the scope cell holds now, and what a deferred function literal registered so far will
+// store into it when the function returns ("" = none).
+func (f *envFlow) Entry() string        { return envOrig + ";" }
 func (f *envFlow) Copy(s string) string { return s }
+func envCur(s string) string {
+	if i := strings.Index(s, ";"); i >= 0 {
+		return s[:i]
+	}
+	return s
+}
+func envPending(s string) string {
+	if i := strings.Index(s, ";"); i >= 0 {
+		return s[i+1:]
+	}
+	return ""
+}
+func joinEnv1(a, b string) string {
+	if a == b {
+		return a
+	}
+	return envMixed
+}
 func (f *envFlow) Join(a, b string) (string, bool) {
 	if a == b {
 		return a, false
 	}
-	if a == envMixed {
-		return a, false
-	}
-	return envMixed, true
+	j := joinEnv1(envCur(a), envCur(b)) + ";" + joinEnv1(envPending(a), envPending(b))
+	return j, j != a
 }
 func (f *envFlow) classify(v ssa.Value) string {
 	if f.entry[v] {
 		return envOrig
+	}
+	if sv := spilledValue(v); sv != nil {
+		return f.classify(sv) // a local captured by a (deferred) function literal lives in memory
 	}
 	var c *ssa.Call
 	switch x := v.(type) {
@@ -54,15 +75,71 @@ func (f *envFlow) classify(v ssa.Value) string {
 	}
 	if c != nil {
 		if callee := staticCallee(c); callee != nil && callee.Pkg != nil && callee.Pkg.Pkg.Path() == modPath+"/env" && callee.Signature.Recv() != nil &&
-			len(c.Call.Args) >= 1 && f.entry[c.Call.Args[0]] && callee.Signature.Results().Len() >= 1 && isNamed(callee.Signature.Results().At(0).Type(), modPath+"/env", "Env") {
+			len(c.Call.Args) >= 1 && f.classify(c.Call.Args[0]) == envOrig && callee.Signature.Results().Len() >= 1 && isNamed(callee.Signature.Results().At(0).Type(), modPath+"/env", "Env") {
 			return envChild
 		}
 	}
 	return envOther
 }
+
+// deferredRestore: d defers a function literal that stores one of its captured variables into the scope cell of this record;
+// returns the classification of that variable's value.
+func (f *envFlow) deferredRestore(d *ssa.Defer) string {
+	mc, ok := d.Call.Value.(*ssa.MakeClosure)
+	if !ok {
+		return ""
+	}
+	cf := mc.Fn.(*ssa.Function)
+	for _, b := range cf.Blocks {
+		for _, in := range b.Instrs {
+			st, ok := in.(*ssa.Store)
+			if !ok {
+				continue
+			}
+			fa, ok := st.Addr.(*ssa.FieldAddr)
+			if !ok || f.m.cell[fa.Field] != "env" {
+				continue
+			}
+			// the stored value: a load of a captured variable
+			u, ok := st.Val.(*ssa.UnOp)
+			if !ok {
+				return envOther
+			}
+			fv, ok := u.X.(*ssa.FreeVar)
+			if !ok {
+				return envOther
+			}
+			for i, v := range cf.FreeVars {
+				if v == fv {
+					if al, ok := mc.Bindings[i].(*ssa.Alloc); ok {
+						for _, ref := range *al.Referrers() {
+							if s2, ok := ref.(*ssa.Store); ok && s2.Addr == ssa.Value(al) {
+								return f.classify(s2.Val)
+							}
+						}
+					}
+				}
+			}
+			return envOther
+		}
+	}
+	return ""
+}
+
 func (f *envFlow) Instr(in ssa.Instruction, s string) string {
-	if st, ok := in.(*ssa.Store); ok && f.m.cellAddr(st.Addr, f.base) == "env" {
-		return f.classify(st.Val)
+	switch x := in.(type) {
+	case *ssa.Store:
+		if f.m.cellAddr(x.Addr, f.base) == "env" {
+			return f.classify(x.Val) + ";" + envPending(s)
+		}
+	case *ssa.Defer:
+		if c := f.deferredRestore(x); c != "" && envPending(s) == "" {
+			return envCur(s) + ";" + c // the first registered literal runs last
+		}
+	case *ssa.RunDefers:
+		if pd := envPending(s); pd != "" {
+			return pd + ";"
+		}
 	}
 	return s
 }
@@ -164,7 +241,7 @@ func checkC04(p *Program, r *Report) {
 			}
 			seenRet[fmt.Sprintf("%s|return|%s", fname, exitKey(ret))]++
 			site := p.Pos(instrPos(ret))
-			r.Check(st == envOrig, "C04.R1", inst, site, "scope cell holds the entry scope", "returns with the scope cell holding "+describeEnv(st)+": the caller continues in the wrong scope ("+exitDesc(ret)+")")
+			r.Check(envCur(st) == envOrig, "C04.R1", inst, site, "scope cell holds the entry scope", "returns with the scope cell holding "+describeEnv(envCur(st))+": the caller continues in the wrong scope ("+exitDesc(ret)+")")
 		}
 		// R2: statements run in a child scope
 		for _, e := range va.events[fn] {
@@ -173,7 +250,7 @@ func checkC04(p *Program, r *Report) {
 			}
 			st := before[e.call]
 			inst := fname + "|stmt " + normIdx(strings.Join(e.operands, "|"))
-			r.Check(st == envChild, "C04.R2", inst, p.Pos(e.call.Pos()), "statement runs in a fresh child of the entry scope", "a block statement runs in "+describeEnv(st)+" instead of a fresh child scope: its bindings leak or shadow wrongly")
+			r.Check(envCur(st) == envChild, "C04.R2", inst, p.Pos(e.call.Pos()), "statement runs in a fresh child of the entry scope", "a block statement runs in "+describeEnv(envCur(st))+" instead of a fresh child scope: its bindings leak or shadow wrongly")
 		}
 	}
 	sort.Strings(switching)
@@ -473,10 +550,9 @@ func c04Closure(p *Program, r *Report, m *vmModel) {
 				if bound != nil && pbase != nil {
 					// the captured variable holds the parent's env cell value at creation time
 					if al, ok := bound.(*ssa.Alloc); ok {
-						for _, r3 := range *al.Referrers() {
-							if st2, ok := r3.(*ssa.Store); ok && st2.Addr == ssa.Value(al) && m.cellLoad(st2.Val, pbase) == "env" {
-								okEnv = true
-							}
+						// assigned exactly once, at creation, and never through an alias or by the function value itself
+						if v := allocSingleValue(al); v != nil && m.cellLoad(v, pbase) == "env" {
+							okEnv = true
 						}
 					} else if m.cellLoad(bound, pbase) == "env" {
 						okEnv = true
